@@ -19,7 +19,7 @@
 //! Mutators allow injecting controlled variations during pickle generation
 //! to create more diverse test cases for fuzzing and validation.
 
-use crate::generator::GenerationSource;
+use crate::generator::{EntropySource, GenerationSource};
 use clap::ValueEnum;
 
 use crate::stack::StackObjectRef;
@@ -39,6 +39,23 @@ pub use memoindex::MemoIndexMutator;
 pub use offbyone::OffByOneMutator;
 pub use stringlen::StringLengthMutator;
 pub use typeconfusion::TypeConfusionMutator;
+
+/// Decide whether a mutation fires for the given `rate` (a probability: 0.0 never, 1.0 always).
+///
+/// Always consumes exactly one draw, so the entropy stream does not depend on the outcome.
+/// The extremes are decided by the rate alone: fuzzer-provided bytes decode to arbitrary
+/// floats (0.0 once exhausted, values above 1.0, NaN), which must not fire at rate 0.0
+/// or decline at rate 1.0.
+pub(crate) fn should_mutate(source: &mut GenerationSource, rate: f64) -> bool {
+    let draw = source.gen_f64();
+    if rate <= 0.0 {
+        false
+    } else if rate >= 1.0 {
+        true
+    } else {
+        !(draw > rate)
+    }
+}
 
 /// Snapshot of generator state before an opcode emission.
 ///
